@@ -38,10 +38,12 @@ func genPersistPlan(seed uint64, thorough bool) *Plan {
 	saveNow := func() {
 		// let the periodic saver run and finish ...
 		items = append(items, Item{Op: "adv", N: int64(1100 * time.Millisecond)})
-		if g.chance(4) {
+		if p.Class != "crash" && g.chance(4) {
 			// ... or not finish: the next commands arrive while the save is under
 			// way, and what they change must be in this snapshot or mark the
-			// database for the next one
+			// database for the next one. (Not in the crash class: its oracle knows
+			// the state when a save starts and when it ends, and a snapshot taken at
+			// a point between two commands in between is legitimate but is neither.)
 			return
 		}
 		items = append(items, Item{Op: "await-idle"})
@@ -52,7 +54,7 @@ func genPersistPlan(seed uint64, thorough bool) *Plan {
 		for i := 0; i < n; i++ {
 			switch g.r.IntN(30) {
 			case 0:
-				add("SELECT", g.pick("0", "1", "2"))
+				add("SELECT", g.pick("0", "1", "2", "15"))
 			case 1:
 				add(g.pick("FLUSHDB", "FLUSHALL"))
 			case 2, 3:
@@ -173,12 +175,12 @@ func genPersistPlan(seed uint64, thorough bool) *Plan {
 		// after the restart the same connection carries on: reads and a few writes
 		for i := 0; i < 3+g.r.IntN(6); i++ {
 			if g.chance(2) {
-				items = append(items, cmdItem("SELECT", g.pick("0", "1", "2")))
+				items = append(items, cmdItem("SELECT", g.pick("0", "1", "2", "15")))
 			}
 			items = append(items, Item{Args: bs(g.concCmd(tk)...)})
 		}
 		p.Clients = []Client{{Name: "writer", Items: items}, {Name: "admin", Items: admin}}
-		obs := observation(g.keys, 3, 0, 1, 2)
+		obs := observation(g.keys, 3, 0, 1, 2, 15)
 		p.Clients[0].Items = append(p.Clients[0].Items, Item{Op: "barrier", N: 3})
 		p.Clients = append(p.Clients, obs)
 	} else {
